@@ -19,12 +19,12 @@ import (
 
 // qa adapts the five cond-based queues.
 type qa struct {
-	name      string
-	add       func(v int) bool
-	addPrior  func(v int) bool
-	pop       func() (int, bool)
-	popAnyway func() (int, bool) // nil: same as pop, and pop hands out remaining items after close
-	close     func()
+	name             string
+	add              func(v int) bool
+	addPrior         func(v int) bool
+	pop              func() (int, bool)
+	popAnyway        func() (int, bool) // nil: same as pop, and pop hands out remaining items after close
+	close            func()
 	drainsAfterClose bool // pop itself returns remaining items after close (sync queue)
 }
 
@@ -64,7 +64,13 @@ var makers = []func() *qa{
 	func() *qa {
 		x := syncq.NewSyncQueue()
 		return &qa{name: "syncq", add: func(v int) bool { x.Push(v); return true },
-			pop: func() (int, bool) { v := x.Pop(); if v == nil { return 0, false }; return v.(int), true }, close: x.Close, drainsAfterClose: true}
+			pop: func() (int, bool) {
+				v := x.Pop()
+				if v == nil {
+					return 0, false
+				}
+				return v.(int), true
+			}, close: x.Close, drainsAfterClose: true}
 	},
 }
 
